@@ -124,3 +124,87 @@ Proof.
   apply Nat.eqb_eq in Hw. apply String.eqb_eq in Hn. subst.
   f_equal; [|now apply IH]. destruct k, k'; try discriminate; reflexivity.
 Qed.
+
+(* ---------------- association lists ---------------- *)
+Lemma aget_last_app a b n acc : aget_last (a ++ b) n acc = aget_last b n (aget_last a n acc).
+Proof. revert acc; induction a as [|[m v] a IH]; intros acc; [reflexivity|]. cbn [app aget_last]. apply IH. Qed.
+
+Lemma amem_false_aget a n acc : amem a n = false -> aget_last a n acc = acc.
+Proof.
+  revert acc; induction a as [|[m v] a IH]; intros acc H; [reflexivity|].
+  unfold amem in H. cbn [existsb fst] in H. apply orb_false_iff in H as [Hm Hr].
+  cbn [aget_last]. rewrite Hm. now apply IH.
+Qed.
+
+Lemma aget_last_map_same a n v acc :
+  aget_last (map (fun p => if String.eqb (fst p) n then (fst p, v) else p) a) n acc
+  = if amem a n then Some v else acc.
+Proof.
+  revert acc; induction a as [|[m x] a IH]; intros acc; [reflexivity|].
+  cbn [map fst]. unfold amem. cbn [existsb fst]. fold (amem a n).
+  destruct (String.eqb m n) eqn:E.
+  - cbn [aget_last fst]. rewrite E. rewrite IH. cbn [orb]. destruct (amem a n); reflexivity.
+  - cbn [aget_last]. rewrite E. rewrite IH. reflexivity.
+Qed.
+
+Lemma aget_last_map_other a m n v acc : String.eqb m n = false ->
+  aget_last (map (fun p => if String.eqb (fst p) m then (fst p, v) else p) a) n acc = aget_last a n acc.
+Proof.
+  intros Hne. revert acc; induction a as [|[k x] a IH]; intros acc; [reflexivity|].
+  cbn [map fst]. destruct (String.eqb k m) eqn:E.
+  - cbn [aget_last]. apply String.eqb_eq in E. subst k. rewrite Hne. apply IH.
+  - cbn [aget_last]. apply IH.
+Qed.
+
+Lemma aget_aset_same a n v : aget (aset a n v) n = Some v.
+Proof.
+  unfold aget, aset. destruct (amem a n) eqn:E.
+  - rewrite aget_last_map_same, E. reflexivity.
+  - rewrite aget_last_app. cbn [aget_last]. now rewrite String.eqb_refl.
+Qed.
+
+Lemma aget_aset_other a m n v : String.eqb m n = false -> aget (aset a m v) n = aget a n.
+Proof.
+  intros Hne. unfold aget, aset. destruct (amem a m).
+  - now apply aget_last_map_other.
+  - rewrite aget_last_app. cbn [aget_last]. now rewrite Hne.
+Qed.
+
+Lemma aint_aset_same a n z : aint (aset a n (VInt z)) n = z.
+Proof. unfold aint. now rewrite aget_aset_same. Qed.
+Lemma aint_aset_other a m n v : String.eqb m n = false -> aint (aset a m v) n = aint a n.
+Proof. intros H. unfold aint. now rewrite aget_aset_other. Qed.
+Lemma abytes_aset_same a n b : abytes (aset a n (VBytes b)) n = b.
+Proof. unfold abytes. now rewrite aget_aset_same. Qed.
+Lemma abytes_aset_other a m n v : String.eqb m n = false -> abytes (aset a m v) n = abytes a n.
+Proof. intros H. unfold abytes. now rewrite aget_aset_other. Qed.
+
+(* ---------------- encoded length ---------------- *)
+Definition layout_fixed_ok (l : layout) : bool :=
+  forallb (fun f => match fst (fst f) with KVar => false | KCStr => Nat.ltb 0 (snd (fst f)) | _ => true end) l.
+
+Lemma enc_field_len k w v b : enc_field k w v = Ok b ->
+  match k with KVar => False | KCStr => (0 < w)%nat | _ => True end -> length b = w.
+Proof.
+  intros He Hk. destruct k, v as [z|s]; simpl in He; try discriminate.
+  - destruct (Nat.eqb_spec (length s) w); [now injection He as <-|discriminate].
+  - now destruct (to_bytes_ok _ _ _ He) as (_ & ? & _).
+  - now destruct (to_bytes_ok _ _ _ He) as (_ & ? & _).
+  - destruct (Nat.eqb_spec (length s) w); [now injection He as <-|discriminate].
+  - injection He as <-. apply null_pad_length. now right.
+  - injection He as <-. apply null_pad_length. now left.
+  - contradiction.
+Qed.
+
+Lemma enc_fields_len l : forall vals bs, layout_fixed_ok l = true -> enc_fields l vals = Ok bs -> len bs = layout_width l.
+Proof.
+  induction l as [|[[k w] n] l IH]; intros vals bs Hok He.
+  - destruct vals; [|discriminate]. now injection He as <-.
+  - destruct vals as [|v vals]; [discriminate|]. cbn [enc_fields] in He.
+    destruct (enc_field k w v) as [b|e] eqn:Eb; [|discriminate]. cbn [bind] in He.
+    destruct (enc_fields l vals) as [r|e] eqn:Er; [|discriminate]. cbn [bind] in He. injection He as <-.
+    cbn [layout_fixed_ok forallb fst snd] in Hok. apply andb_true_iff in Hok as [Hk Hr].
+    rewrite len_app, (IH _ _ Hr Er). unfold layout_width at 2. cbn [fold_right fst snd]. fold (layout_width l).
+    unfold len. rewrite (enc_field_len _ _ _ _ Eb); [reflexivity|].
+    destruct k; try exact I; [now apply Nat.ltb_lt|discriminate].
+Qed.
